@@ -1,7 +1,7 @@
 #!/bin/bash
 # usage: seed_keep.sh <Cxx> <dirname> "<what it needs to manifest>" "<first result>" "<final result>"
 id=$1; name=$2; needs=$3; first=$4; final=$5
-sd=/tmp/seed-$id; out=/verif/seeded/$name
+sd=/tmp/seed${SEED_ROUND:-}-$id; out=/verif/seeded/$name
 mkdir -p $out
 cp $sd/patch.confirmed.diff $out/patch.diff
 cp $sd/demo_test.go $out/demo_test.go.txt
